@@ -739,8 +739,7 @@ theorem appBindReq_once (e : EP) (req : Nat) (bt : BindType) (host : Bytes) (por
   unfold Mux.appBindReq
   split
   · exact Once.silent rfl rfl (by simp [doneReqs])
-  · simp only
-    split
+  · split
     · exact Once.silent rfl rfl (by simp [doneReqs])
     · exact Once.silent (by simp) (by simp) rfl
 
